@@ -47,7 +47,7 @@ theorem concat_case (c : Ctx) (hign : c.ign = true) (k : String)
   have har : arityErr k xs.length = none := by
     rcases hk with rfl | rfl <;> simp [arityErr, binaryArithOps, comparisonOps]
   have hl : listOps.contains k = true := by rcases hk with rfl | rfl <;> decide
-  have hpm : usesParseMany k = true := by rcases hk with rfl | rfl <;> decide
+  have hpm : nullOnMissing true k = true := by rcases hk with rfl | rfl <;> decide
   rcases hk with rfl | rfl
   · have hcls : classify "$concatArrays" = .array := by decide
     cases h2 : concatArraysS vs with
@@ -56,7 +56,7 @@ theorem concat_case (c : Ctx) (hign : c.ign = true) (k : String)
       simp [applyStrict, h2, Except.map] at hs; subst hs
       have hp := concatArrays_pure vs w h2
       rw [eval_list c _ xs .array hcls (by simp) (by simp) (by simp) hm har hl]
-      rw [hpm, hign, Bool.and_self, evalList_ok c true xs vs h1, allSome_manyTrue]
+      rw [hign, hpm, evalList_ok c true xs vs h1, allSome_manyTrue]
       simp [Except.bind, applyList, binaryArithOps, comparisonOps, groupingOps, hp, Except.map]
   · have hcls : classify "$concat" = .string := by decide
     cases h2 : concatS vs with
@@ -65,7 +65,7 @@ theorem concat_case (c : Ctx) (hign : c.ign = true) (k : String)
       simp [applyStrict, h2, Except.map] at hs; subst hs
       have hp := concat_pure vs w h2
       rw [eval_list c _ xs .string hcls (by simp) (by simp) (by simp) hm har hl]
-      rw [hpm, hign, Bool.and_self, evalList_ok c true xs vs h1, allSome_manyTrue]
+      rw [hign, hpm, evalList_ok c true xs vs h1, allSome_manyTrue]
       simp [Except.bind, applyList, binaryArithOps, comparisonOps, groupingOps, hp, Except.map]
 
 /-- `$arrayElemAt` -/
@@ -77,22 +77,49 @@ theorem elemAt_case (c : Ctx) (xs : List Val) (vs : List (Option Val))
   have hm : mode "$arrayElemAt" (.arr xs) = .shaped := mode_shaped_arr _ xs (by simp)
   have hl : listOps.contains "$arrayElemAt" = true := by decide
   match vs, hs, hr, h1 with
-  | [some x, some y], hs, hr, h1 =>
+  | [a, i], hs, hr, h1 =>
     simp only [strictReasons, arithOps] at hr
     simp at hr
     have hlen : xs.length = 2 := by simpa using congrArg List.length h1
     have har : arityErr "$arrayElemAt" xs.length = none := by rw [hlen]; decide
-    have hs' : elemAt (some x) (some y) = .ok r := by simpa [applyStrict] using hs
-    have hp := elemAt_pure x y (by simpa using hr.2) r (by simpa using hr.1.1)
-      (by simpa using hr.1.2) hs'
+    have hs' : elemAt a i = .ok r := by simpa [applyStrict] using hs
+    have hp := elemAt_pure a i (by simpa using hr) r hs'
     rw [eval_list c _ xs .project hcls (by simp) (by simp) (by simp) hm har hl]
-    rw [show usesParseMany "$arrayElemAt" = false by decide, Bool.false_and,
-      evalList_ok c false xs [some x, some y] h1]
-    simp [allSome, manyItem, Except.bind, applyList, binaryArithOps, comparisonOps, hp]
-  | [none, _], _, hr, _ => simp [strictReasons, arithOps, nullish] at hr
-  | [some _, none], _, hr, _ => simp [strictReasons, arithOps, nullish] at hr
+    rw [show nullOnMissing c.ign "$arrayElemAt" = true by
+          simp [nullOnMissing, usesParseOrNothing],
+      evalList_ok c true xs [a, i] h1, allSome_manyTrue]
+    simp [nulled, Except.bind, applyList, binaryArithOps, comparisonOps, hp]
   | [], hs, _, _ => simp [applyStrict] at hs
   | [_], hs, _, _ => simp [applyStrict] at hs
   | _ :: _ :: _ :: _, hs, _, _ => simp [applyStrict] at hs
+
+/-- `$strcasecmp` -/
+theorem strcasecmp_case (c : Ctx) (xs : List Val) (vs : List (Option Val))
+    (h1 : xs.map (eval c) = vs.map .ok)
+    (r : Option Val) (hs : applyStrict "$strcasecmp" vs = .ok r) :
+    eval c (.doc [("$strcasecmp", .arr xs)]) = .ok r := by
+  have hcls : classify "$strcasecmp" = .string := by decide
+  have hm : mode "$strcasecmp" (.arr xs) = .shaped := by
+    simp [mode, dateOps, datePartOps, wholeOps, unaryArithOps, groupingOps]
+  have hl : listOps.contains "$strcasecmp" = true := by decide
+  match vs, hs, h1 with
+  | [a, b], hs, h1 =>
+    have hlen : xs.length = 2 := by simpa using congrArg List.length h1
+    have har : arityErr "$strcasecmp" xs.length = none := by rw [hlen]; decide
+    have hs' : (strcasecmpS a b).map some = .ok r := by simpa [applyStrict] using hs
+    cases h2 : strcasecmpS a b with
+    | error e => simp [h2, Except.map] at hs'
+    | ok w =>
+      simp [h2, Except.map] at hs'; subst hs'
+      have hp := strcasecmp_pure a b w h2
+      rw [eval_list c _ xs .string hcls (by simp) (by simp) (by simp) hm har hl]
+      rw [show nullOnMissing c.ign "$strcasecmp" = true by
+            simp [nullOnMissing, usesParseOrNothing],
+        evalList_ok c true xs [a, b] h1, allSome_manyTrue]
+      simp [nulled, Except.bind, applyList, binaryArithOps, comparisonOps, groupingOps, hp,
+        Except.map]
+  | [], hs, _ => simp [applyStrict] at hs
+  | [_], hs, _ => simp [applyStrict] at hs
+  | _ :: _ :: _ :: _, hs, _ => simp [applyStrict] at hs
 
 end MongoModel.Proofs.C04
